@@ -70,13 +70,15 @@ pub struct GeneralOpts {
     pub push: bool,
     pub stalls: bool,
     pub big_batches: bool,
+    /// 1 = normal, 2 = wide (thorough tier: more topics, phases and consumers per run)
+    pub scale: u64,
     pub single_drain_consumer_share: u64,
 }
 
 pub fn f_general(seed: u64, o: &GeneralOpts) -> Plan {
     let mut rng = Rng::new(seed);
     let project = "proj-a";
-    let n_topics = rng.range(1, 3) as usize;
+    let n_topics = rng.range(1, 2 + o.scale) as usize;
     let push_interval = if o.push { *rng.pick(&[100u32, 1000, 5000]) } else { 0 };
     let mut plan = Plan { seed, family: "general".into(), knobs: knobs(&mut rng, o.stalls, push_interval), final_drain: true, health_probe: true, ..Default::default() };
     let faultless = plan.knobs.site_mask == 0;
@@ -105,7 +107,7 @@ pub fn f_general(seed: u64, o: &GeneralOpts) -> Plan {
         };
     }
     let single_consumer = rng.below(100) < o.single_drain_consumer_share;
-    let n_phases = rng.range(2, 5) as usize;
+    let n_phases = rng.range(2, 3 + 2 * o.scale) as usize;
     let mut next_slot = 1u32;
     let mut late_sub = 0usize;
     let mut deleted: Vec<String> = Vec::new();
@@ -134,7 +136,7 @@ pub fn f_general(seed: u64, o: &GeneralOpts) -> Plan {
             if is_push && rng.chance(700) {
                 continue;
             }
-            let n_cons = if single_consumer { 1 } else { rng.range(0, 3) as usize };
+            let n_cons = if single_consumer { 1 } else { rng.range(0, 2 + o.scale) as usize };
             for _ in 0..n_cons {
                 let mut s = Vec::new();
                 let kind = if single_consumer { 0 } else { rng.below(10) };
